@@ -45,6 +45,16 @@ import (
 	"github.com/rs/zerolog"
 )
 
+// scratch directory of this process; removed on every exit path (ev.Unbound exits without running defers)
+var scratchDir string
+
+func unbound(what string) {
+	if scratchDir != "" {
+		os.RemoveAll(scratchDir)
+	}
+	ev.Unbound(what)
+}
+
 // ---- system under test ---------------------------------------------------------------------------
 
 type sut struct {
@@ -63,20 +73,20 @@ func newSUT(dir string, conns int, limits []int) *sut {
 	db, err := database.New(&database.Config{MaxConnections: conns, ThreadCount: 1, MemoryLimit: "4GB",
 		PreserveInsertionOrder: true, TempDirectory: dir + "/tmp"}, zerolog.Nop())
 	if err != nil {
-		ev.Unbound("database.New: " + err.Error())
+		unbound("database.New: " + err.Error())
 	}
 	lb, err := storage.NewLocalBackend(dir+"/store", zerolog.Nop())
 	if err != nil {
-		ev.Unbound("storage.NewLocalBackend: " + err.Error())
+		unbound("storage.NewLocalBackend: " + err.Error())
 	}
 	h := api.NewQueryHandler(db, lb, zerolog.Nop(), 0, 0)
 	sq, err := sql.Open("sqlite3", "file:"+dir+"/gov.db")
 	if err != nil {
-		ev.Unbound("sqlite: " + err.Error())
+		unbound("sqlite: " + err.Error())
 	}
 	gm, err := governance.NewManager(&governance.ManagerConfig{DB: sq, Config: &config.GovernanceConfig{Enabled: true}, Logger: zerolog.Nop()})
 	if err != nil {
-		ev.Unbound("governance.NewManager: " + err.Error())
+		unbound("governance.NewManager: " + err.Error())
 	}
 	// one token per row limit; the token id IS the limit. A request without the header carries no token
 	// and is therefore not governed at all ("limit none").
@@ -85,12 +95,12 @@ func newSUT(dir string, conns int, limits []int) *sut {
 			continue
 		}
 		if _, err := gm.CreatePolicy(context.Background(), &governance.Policy{TokenID: int64(l), TokenName: "limit" + strconv.Itoa(l), MaxRowsPerQuery: l}); err != nil {
-			ev.Unbound("governance.CreatePolicy: " + err.Error())
+			unbound("governance.CreatePolicy: " + err.Error())
 		}
 	}
 	lc := license.VerifClient(license.FeatureQueryGovernance)
 	if !lc.CanUseQueryGovernance() {
-		ev.Unbound("overlay licence does not enable query governance")
+		unbound("overlay licence does not enable query governance")
 	}
 	h.SetGovernance(gm, lc)
 	app := fiber.New(fiber.Config{DisableStartupMessage: true, BodyLimit: 64 << 20})
@@ -149,12 +159,12 @@ type oracle struct{ db *sql.DB }
 func newOracle() *oracle {
 	db, err := sql.Open("duckdb", "")
 	if err != nil {
-		ev.Unbound("oracle DuckDB: " + err.Error())
+		unbound("oracle DuckDB: " + err.Error())
 	}
 	db.SetMaxOpenConns(1)
 	for _, s := range []string{"SET threads=1", "SET preserve_insertion_order=true"} {
 		if _, err := db.Exec(s); err != nil {
-			ev.Unbound("oracle setup: " + err.Error())
+			unbound("oracle setup: " + err.Error())
 		}
 	}
 	return &oracle{db}
@@ -311,18 +321,18 @@ func runUnit(s *sut, o *oracle, u unit, limits []int) {
 	expJ, err := o.run(tj, u.t.kind)
 	atomic.AddInt64(&cnt.oracleQueries, 1)
 	if err != nil {
-		ev.Unbound("DuckDB rejects a grid statement (fix grid.go): " + q + ": " + err.Error())
+		unbound("DuckDB rejects a grid statement (fix grid.go): " + q + ": " + err.Error())
 	}
 	expA := expJ
 	if ta != tj {
 		expA, err = o.run(ta, u.t.kind)
 		atomic.AddInt64(&cnt.oracleQueries, 1)
 		if err != nil {
-			ev.Unbound("DuckDB rejects a grid statement (fix grid.go): " + ta + ": " + err.Error())
+			unbound("DuckDB rejects a grid statement (fix grid.go): " + ta + ": " + err.Error())
 		}
 	}
 	if len(expJ.val) != u.n {
-		ev.Unbound(fmt.Sprintf("oracle returned %d rows for n=%d: %s", len(expJ.val), u.n, q))
+		unbound(fmt.Sprintf("oracle returned %d rows for n=%d: %s", len(expJ.val), u.n, q))
 	}
 	for _, limit := range limits {
 		for _, ep := range endpoints {
@@ -333,7 +343,7 @@ func runUnit(s *sut, o *oracle, u unit, limits []int) {
 			status, body, err := s.postRetry(ep.format, ep.path, q, limit)
 			atomic.AddInt64(&cnt.requests, 1)
 			if err != nil {
-				ev.Unbound("app.Test: " + err.Error())
+				unbound("app.Test: " + err.Error())
 			}
 			kinds := judge(ep.format, u, limit, q, exp, status, body)
 			atomic.AddInt64(&cnt.evaluations, 1)
@@ -381,7 +391,7 @@ func judge(format string, u unit, limit int, q string, exp *expected, status int
 	if err != nil {
 		m, ok := err.(*malformed)
 		if !ok {
-			ev.Unbound("decoder: " + err.Error())
+			unbound("decoder: " + err.Error())
 		}
 		fail("malformed("+m.what+")", "", fmt.Sprintf("the body is not a well-formed %s response: %s", format, m.what))
 		if format != "json" || m.what != "invalid-utf8" {
@@ -697,9 +707,10 @@ func main() {
 	os.Setenv("TZ", "UTC")
 	run := ev.Start("C19", "exploration")
 	dir := fmt.Sprintf("/dev/shm/verif.c19.%d", os.Getpid())
+	scratchDir = dir
 	for _, d := range []string{"/store", "/tmp"} {
 		if err := os.MkdirAll(dir+d, 0o755); err != nil {
-			ev.Unbound(err.Error())
+			unbound(err.Error())
 		}
 	}
 	cleanup := func() { os.RemoveAll(dir) }
@@ -720,7 +731,7 @@ func main() {
 	for _, t := range g.types {
 		for _, v := range t.allVals() {
 			if _, err := o0.run(unit{t, v, 1}.sql(), t.kind); err != nil {
-				ev.Unbound("DuckDB rejects a grid value (fix grid.go): " + t.name + "/" + v.class + ": " + err.Error())
+				unbound("DuckDB rejects a grid value (fix grid.go): " + t.name + "/" + v.class + ": " + err.Error())
 			}
 		}
 	}
@@ -862,13 +873,13 @@ func runNames(s *sut, o *oracle, g *grid) int {
 				}
 				rs, err := o.db.Query(t)
 				if err != nil {
-					ev.Unbound("DuckDB rejects a column-name statement: " + t + ": " + err.Error())
+					unbound("DuckDB rejects a column-name statement: " + t + ": " + err.Error())
 				}
 				want, _ := rs.Columns()
 				rs.Close()
 				status, body, err := s.postRetry(ep.format, ep.path, q, 0)
 				if err != nil {
-					ev.Unbound("app.Test: " + err.Error())
+					unbound("app.Test: " + err.Error())
 				}
 				cases++
 				nameClass := "name:" + strings.Trim(strconv.QuoteToASCII(name), `"`)
